@@ -6,6 +6,7 @@
 -/
 import PV.Props.C33
 import PV.Model.SetAttr
+import PV.Model.CanonLemmas
 namespace PV.Props.C31
 open PV PV.Wire PV.SftpAttr PV.SetAttr PV.Generated.C33
 
@@ -106,6 +107,82 @@ theorem other_ops_keep_contents (os : OS) (hl : OSLaws os) (f : FileSt) (op : Op
   | chown u g => simp [OS.run, OS.apply, Op.call, hl.chown_content]
   | utime a t => simp [OS.run, OS.apply, Op.call, hl.utime_content]
 
+/-! ## by-path operations name the file relative to the client's working directory -/
+
+/-- **Which file.** For each of the four by-path operations alike, the SETSTAT request names `_adjust_cwd(path)` and
+carries exactly the matching call (the operation kind does not influence the path). -/
+theorem by_path_request (cwd : Option Bytes) (path : Bytes) (op : Op) (h : op.InRange) :
+    byPath cwd path op = (adjustCwd cwd path, .ok [op.call]) := by
+  simp [byPath, client_op_calls op h]
+
+/-- an absolute path is sent as it is; without `chdir` every path is -/
+theorem adjust_absolute (cwd : Option Bytes) (path : Bytes) (h : path.head? = some 47) :
+    adjustCwd cwd path = path := by
+  cases cwd <;> simp [adjustCwd, h]
+
+theorem adjust_none (path : Bytes) : adjustCwd none path = path := rfl
+
+/-- a relative path is appended to the working directory with exactly one separator -/
+theorem adjust_relative (c path : Bytes) (h : path.head? ≠ some 47) :
+    adjustCwd (some c) path = if c = [47] then 47 :: path else c ++ 47 :: path := by
+  by_cases hc : c = [47]
+  · subst hc; simp [adjustCwd, h]
+  · simp [adjustCwd, h, hc]
+
+private theorem joinSlash_snoc (comps : List Bytes) (name : Bytes) (hne : comps ≠ []) :
+    PV.Canon.joinSlash (comps ++ [name]) = PV.Canon.joinSlash comps ++ 47 :: name := by
+  induction comps with
+  | nil => exact absurd rfl hne
+  | cons c r ih =>
+    cases r with
+    | nil => simp [PV.Canon.joinSlash, PV.Canon.slash]
+    | cons d r' =>
+      have := ih (by simp)
+      simp only [List.cons_append, PV.Canon.joinSlash] at this ⊢
+      rw [this]; simp [PV.Canon.slash]
+
+/-- **Under the working directory.** With a canonical working directory (what `chdir` stores: the server's
+`canonicalize`) other than the root and a plain name, the server-side canonical path of the request is
+`cwd/name` — never a same-named file elsewhere. -/
+theorem relative_name_resolves_under_cwd (root : Bytes) (comps : List Bytes) (name : Bytes)
+    (hroot : root = [PV.Canon.slash] ∨ root = [PV.Canon.slash, PV.Canon.slash])
+    (hc : ∀ c ∈ comps, PV.Canon.Proper c) (hne : comps ≠ []) (hn : PV.Canon.Proper name) :
+    PV.Canon.canonicalize (adjustCwd (some (root ++ PV.Canon.joinSlash comps)) name)
+      = root ++ PV.Canon.joinSlash comps ++ 47 :: name := by
+  have hrel : name.head? ≠ some 47 := by
+    cases name with
+    | nil => simp
+    | cons x xs =>
+      have : x ≠ PV.Canon.slash := fun e => hn.2.2.2 (by simp [e])
+      simpa [PV.Canon.slash] using this
+  have hcne : root ++ PV.Canon.joinSlash comps ≠ [47] := by
+    cases comps with
+    | nil => exact absurd rfl hne
+    | cons c r =>
+      have hcp := hc c (by simp)
+      cases c with
+      | nil => exact absurd rfl hcp.1
+      | cons x xs =>
+        rcases hroot with e | e <;> subst e <;> cases r <;> simp [PV.Canon.joinSlash, PV.Canon.slash]
+  rw [adjust_relative _ _ hrel]
+  simp only [hcne, if_false]
+  -- the request path is the normal form root ++ join (comps ++ [name])
+  have hjoin := joinSlash_snoc comps name hne
+  have hall : ∀ c ∈ comps ++ [name], PV.Canon.Proper c := by
+    intro c hcm
+    simp only [List.mem_append, List.mem_singleton] at hcm
+    rcases hcm with hcm | hcm
+    · exact hc c hcm
+    · subst hcm; exact hn
+  have hform : root ++ PV.Canon.joinSlash comps ++ 47 :: name
+      = root ++ PV.Canon.joinSlash (comps ++ [name]) := by rw [hjoin]; simp [List.append_assoc]
+  rw [hform]
+  have habs : PV.Canon.isabs (root ++ PV.Canon.joinSlash (comps ++ [name])) = true := by
+    rcases hroot with e | e <;> subst e <;> simp [PV.Canon.isabs, PV.Canon.slash]
+  unfold PV.Canon.canonicalize
+  simp only [habs, if_true]
+  exact PV.Canon.normpath_normal root (comps ++ [name]) hroot hall
+
 /-! ## the hypotheses are satisfiable; the classic case -/
 
 theorem toy_laws : OSLaws toyOS := ⟨fun _ _ => rfl, fun _ _ _ => rfl, fun _ _ _ => rfl, fun _ _ => rfl⟩
@@ -117,5 +194,8 @@ example : (toyOS.run ⟨[104, 101, 108, 108, 111, 32, 119, 111, 114, 108, 100], 
     [Call.truncate 5]).content = [104, 101, 108, 108, 111] := by decide
 
 example : truncated [1, 2] 4 = [1, 2, 0, 0] := by decide
+
+/-- after `chdir("/sub")`, `truncate("f", …)` names `/sub/f`, not `/f` -/
+example : adjustCwd (some [47, 115, 117, 98]) [102] = [47, 115, 117, 98, 47, 102] := by decide
 
 end PV.Props.C31
